@@ -218,7 +218,7 @@ def pval_exact(pv):
 
 
 RAWS = [3, 0, -7, 0.1, 1e-7, 2.5e3, 5e-324, Decimal("1.50"), Decimal("123456789012345678901234567890.123"), "11", "1e-9", "0.30",
-        "w/5", "vdd*2", "x y", "1*2", 3 * Prefix.NANO, Prefixed(number=Decimal("4.10"), prefix=Prefix.DECA), h.Literal("lit"), 10**30,
+        "w/5", "vdd*2", "x y", "1*2", ".5", "-.5", "+.25e3", "  .75", "5.", "+3", "1_000", "-0.0", "1E+2", 3 * Prefix.NANO, Prefixed(number=Decimal("4.10"), prefix=Prefix.DECA), h.Literal("lit"), 10**30,
         # explicit literals stay literals, whatever their text looks like
         h.Literal("1e-6"), h.Literal("11"), h.Literal(" 2.50 "), h.Literal("1_000")]
 
